@@ -324,6 +324,23 @@ def run_case(ck, desc):
             dev = float(np.max(np.abs(other[nz] / got[nz] - desc["M2"] / M))) / (desc["M2"] / M)
             if not ck.margin("linear in M (ratio)", dev, 1e-13):
                 ck.violation("linear-in-M", {"rel": dev}, desc)
+        # M = 0 is a resource in place like any other ("linear in M": the first point of a sensitivity sweep
+        # np.linspace(0, Mmax, n)) - on a forecaster that was never fitted and on one that carries fitted values
+        for zero in (0, 0.0, -0.0, np.float64(0.0), np.int64(0)):
+            for fitted in (False, True):
+                fz = ForecasterOnePhase(f)
+                if fitted:
+                    fz.M_, fz.tau_ = 7.0 * M, 0.6 * tau
+                try:
+                    z1 = np.asarray(fz.forecast_cum(t, zero, tau), dtype=float)
+                    z2 = np.asarray(fz.forecast_cum(t, M=zero, tau=tau), dtype=float)
+                except Exception as e:  # noqa: BLE001
+                    ck.violation("forecast=M*rf(t/tau)", {"M": repr(zero), "forecaster_fitted": fitted, "raised": repr(e)[:160]}, desc)
+                    break
+                if np.any(z1 != 0) or np.any(z2 != 0):
+                    ck.violation("forecast=M*rf(t/tau)", {"M": repr(zero), "forecaster_fitted": fitted, "max_abs": float(max(np.max(np.abs(z1)), np.max(np.abs(z2))))}, desc)
+                    break
+        ck.count("forecasts_with_zero_resource_in_place", 10)
         lam2 = 2.0 ** desc["lam_pow"]
         sc = np.asarray(fo.forecast_cum(lam2 * t, M, lam2 * tau), dtype=float)
         if not np.array_equal(sc, got):
